@@ -103,7 +103,7 @@ Qed.
 
 Theorem corr_implies_prop c : wf_case c = true -> corr_b c = true -> prop_b c = true.
 Proof.
-  destruct c as [evs d os|s init ups res]; cbn [wf_case corr_b prop_b]; intros Hwf H.
+  destruct c as [evs d os|s init ups res|evs d|s init ups]; cbn [wf_case corr_b prop_b]; intros Hwf H; try discriminate.
   - apply (run_sound (N.to_nat d) _ evs empty_book _ os Hwf empty_book_inv (sbook_eq_refl _) H).
   - apply levels_eqb_eq in H. subst res.
     assert (Hss : SS s (sort_levels s init)) by (apply sort_levels_SS; exact Hwf).
